@@ -245,14 +245,17 @@ func hexs(b []byte) string {
 	return fmt.Sprintf("%x", b)
 }
 
+// unhex: the octets as a window of a larger buffer whose spare capacity is filled with a pattern — every byte slice handed to the
+// library is what a caller's receive buffer looks like: something else lies behind the message. Code that reads through the
+// capacity instead of the length then computes with those octets and its result differs from the model's / the specification's.
 func unhex(s string) ([]byte, bool) {
 	if s == "-" {
-		return []byte{}, true
+		return junkCap(0), true
 	}
 	if len(s)%2 != 0 {
 		return nil, false
 	}
-	b := make([]byte, len(s)/2)
+	b := junkCap(len(s) / 2)
 	for i := 0; i < len(b); i++ {
 		h, ok1 := hv(s[2*i])
 		l, ok2 := hv(s[2*i+1])
@@ -262,6 +265,14 @@ func unhex(s string) ([]byte, bool) {
 		b[i] = h<<4 | l
 	}
 	return b, true
+}
+
+func junkCap(n int) []byte {
+	buf := make([]byte, n+16)
+	for i := n; i < len(buf); i++ {
+		buf[i] = byte(0xa5 ^ i)
+	}
+	return buf[:n]
 }
 
 func hv(c byte) (byte, bool) {
